@@ -224,13 +224,14 @@ fn('base_mab.BaseMAB._get_cold_arm_to_warm_arm', props='C13', pure=True,
 MAPPING = 'old(self._get_cold_arm_to_warm_arm(arm_to_features, distance_quantile))'
 
 
-def warm_start_contracts(module, cls, copied_maps, derived_maps=(), props='C13', inv='INV', copy_extra_ensures=()):
+def warm_start_contracts(module, cls, copied_maps, derived_maps=(), props='C13', inv='INV', copy_extra_ensures=(),
+                         pre_inv=None, copy_qual=None):
     """_copy_arms of `cls` and BaseMAB._warm_start with that class as receiver.  copied_maps: per-arm dictionaries
     copied from the warm arm; derived_maps: dictionaries recomputed afterwards (Softmax)."""
     allmaps = list(copied_maps) + list(derived_maps)
     same_c = ' and '.join('val(self.%s, c) == old(val(self.%s, val(cold_arm_to_warm_arm, c)))' % (m, m) for m in copied_maps)
     same_a = ' and '.join('val(self.%s, a) == old(val(self.%s, a))' % (m, m) for m in copied_maps)
-    fn('%s.%s._copy_arms' % (module, cls), props=props,
+    fn(copy_qual or '%s.%s._copy_arms' % (module, cls), cls=cls if copy_qual else None, props=props,
        params={'cold_arm_to_warm_arm': 'map:arm'},
        requires=['INV.keys', 'INV.arms', 'distinct(keys(cold_arm_to_warm_arm))',
                  'forall_arm(lambda c: implies(inkeys(cold_arm_to_warm_arm, c), mem(self.arms, c) and '
@@ -243,7 +244,7 @@ def warm_start_contracts(module, cls, copied_maps, derived_maps=(), props='C13',
                 % same_a] + list(copy_extra_ensures))
     ws_c = ' and '.join('val(self.%s, c) == old(val(self.%s, val(%s, c)))' % (m, m, MAPPING) for m in copied_maps)
     fn('base_mab.BaseMAB._warm_start', cls=cls, props=props, params=WS_PARAMS,
-       requires=WS_REQ + [inv, 'slen(self.arms) > 0'], raises=['ValueError'],
+       requires=WS_REQ + [pre_inv or inv, 'slen(self.arms) > 0'], raises=['ValueError'],
        modifies=['self.%s[*]' % m for m in allmaps] + ['self.arm_to_status[*]'],
        ensures=[inv,
                 # C13: only cold arms that have a trained arm within the threshold change; they become warm
